@@ -1,6 +1,18 @@
-import Preflate.Model.Basic
-import Preflate.Model.Bits
-import Preflate.Model.Huffman
-import Preflate.Gen.Consts
-import Preflate.Gen.Effects
-import Preflate.Model.Deflate
+-- Root of the `Preflate` library: every property module (statements + proofs) and the driver.
+import Preflate.Props.C01
+import Preflate.Props.C02
+import Preflate.Props.C03
+import Preflate.Props.C04
+import Preflate.Props.C05
+import Preflate.Props.C06
+import Preflate.Props.C07
+import Preflate.Props.C08
+import Preflate.Props.C10
+import Preflate.Props.C11
+import Preflate.Props.C12
+import Preflate.Props.C13
+import Preflate.Props.C14
+import Preflate.Driver.Wire
+import Preflate.Driver.CodecWire
+import Preflate.Driver.ContainerWire
+import Preflate.Driver.AnalyzeWire
